@@ -170,7 +170,7 @@ class Gen:
         for i, (sl, body) in enumerate(lines):
             if i == cut and cut:
                 if blank_inside:
-                    self.emit(self.nlc)
+                    self.emit(self.rng.choice(["", "", "  ", "\t", " "]) + self.nlc)     # the blank line may carry blanks
                     self.features.add("doc-blank-inside")
                 else:
                     self.emit("/* %s */" % self.word() + self.nlc + "  " * self.indent)
@@ -181,7 +181,7 @@ class Gen:
             self.emit(sl + body)
             self.emit(self.nlc + "  " * self.indent)
         if blank_after:
-            self.emit(self.nlc + "  " * self.indent)
+            self.emit(self.rng.choice(["", "", "  ", "\t"]) + self.nlc + "  " * self.indent)
             self.features.add("doc-blank-after")
             return None
         self.features.add("doc-%d" % (n - doc_from))
@@ -876,3 +876,60 @@ def _expected(g):
     occ = [{"lo": lo, "hi": hi, "sig": s.sig, "doc": s.doc, "def": [s.file, s.lo, s.hi], "kind": s.kind, "name": s.name}
            for (lo, hi, s) in g.occ]
     return {"outline": g.outline, "folds": [list(f) for f in g.folds], "occ": occ, "hints": g.hints}
+
+
+def tiny_hint_workspaces(rng, n):
+    """small hand-shaped programs (<= ~120 bytes) with BOTH kinds of inlay hints, for exhaustive request ranges:
+    a class with 1..3 parameters, a reference with positional (+ named) arguments in a parent list and/or as a class value,
+    and a field override.  Positions are computed while the text is written."""
+    out = []
+    for _ in range(n):
+        nl = rng.choice(["\n", "\n", "\r\n"])
+        sp = lambda: rng.choice(["", " ", " ", "  "])
+        parts, off, hints = [], [0], []
+
+        def emit(s):
+            lo = off[0]
+            parts.append(s)
+            off[0] += len(s.encode("utf-8"))
+            return lo, off[0]
+        k = rng.randrange(1, 4)
+        ps = [(rng.choice(["int", "string", "bit"]), "p" + rng.choice("abcxyz") + str(i)) for i in range(k)]
+        cname = "K" + rng.choice("abcdef")
+        fname = "f" + rng.choice("uvw")
+        emit("class " + cname + "<" + ("," + sp()).join("%s %s" % p for p in ps) + ">" + sp() + "{" + sp() + "int " + fname + ";" + sp() + "}" + nl)
+        if rng.random() < 0.3:
+            emit("// é" + nl)
+        shape = rng.choice(["def", "class", "value"])
+        vals = {"int": ["1", "42"], "string": ['"s"', '"é"'], "bit": ["0", "true"]}
+
+        def ref():
+            lo, hi = emit(cname)
+            emit(sp() + "<" + sp())
+            npos = rng.randrange(0, k + 1)
+            for i in range(npos):
+                if i:
+                    emit("," + sp())
+                pos, _ = emit(rng.choice(vals[ps[i][0]]))
+                hints.append({"pos": pos, "label": ps[i][1] + ":", "kind": "TemplateArg", "owner": [lo, hi]})
+                emit(sp())
+            if npos < k and rng.random() < 0.5:
+                if npos:
+                    emit("," + sp())
+                emit(ps[npos][1] + sp() + "=" + sp() + rng.choice(vals[ps[npos][0]]))
+            emit(">")
+        if shape in ("def", "class"):
+            emit(("def d" if shape == "def" else "class D") + sp() + ":" + sp())
+            ref()
+            emit(sp() + "{" + sp() + "let" + " ")
+            lo, hi = emit(fname)
+            hints.append({"pos": hi, "label": ":int", "kind": "FieldLet", "owner": [lo, hi]})
+            emit(sp() + "=" + sp() + "2;" + sp() + "}" + rng.choice(["", nl]))
+        else:
+            emit("def d" + sp() + "{" + sp() + cname + " g" + sp() + "=" + sp())
+            ref()
+            emit(";" + sp() + "}" + rng.choice(["", nl]))
+        text = "".join(parts)
+        out.append({"files": [["main.td", text]], "root": "main.td", "features": ["tiny-hints"],
+                    "expected": {"main.td": {"outline": [], "folds": [], "occ": [], "hints": hints}}})
+    return out
